@@ -405,6 +405,27 @@ impl Execute for ast::Pipeline {
         // Update exit status.
         shell.set_last_exit_status(result.exit_code.into());
 
+        // A lone group-like compound command (brace group, if, case, loop) never triggers
+        // errexit or the ERR trap by itself: a failing command inside it already did, unless
+        // that command was exempt (e.g., `{ ! true; }` or `{ false && true; }`), in which case
+        // the exemption must not be lost just because the group passes the status on.
+        let is_lone_grouping_command = matches!(
+            self.seq.as_slice(),
+            [ast::Command::Compound(
+                ast::CompoundCommand::BraceGroup(_)
+                    | ast::CompoundCommand::IfClause(_)
+                    | ast::CompoundCommand::CaseClause(_)
+                    | ast::CompoundCommand::ForClause(_)
+                    | ast::CompoundCommand::ArithmeticForClause(_)
+                    | ast::CompoundCommand::WhileClause(_)
+                    | ast::CompoundCommand::UntilClause(_),
+                _
+            )]
+        );
+        if is_lone_grouping_command {
+            params.suppress_errexit = true;
+        }
+
         // Fire the ERR trap if the pipeline failed in a non-conditional context.
         // We reuse `suppress_errexit` here because bash suppresses the ERR trap in
         // exactly the same contexts it suppresses errexit (conditionals, `!`-prefixed
